@@ -16,6 +16,20 @@ def main() -> int:
     try:
         subprocess.run(['git', '-C', '/repo', 'worktree', 'add', '-q', '--detach', os.path.join(tmp, 'wt'), os.environ.get('SEED_BASE', 'HEAD')], check=True)
         wt = os.path.join(tmp, 'wt')
+        import re as _re
+
+        def reports(out: str) -> set[str]:
+            # the report lines of a run, without line numbers (which the patch shifts)
+            return {_re.sub(r':\d+', ':N', l.strip()) for l in out.splitlines() if l.startswith('  [')}
+
+        base_reports: dict[str, set[str]] = {}
+        if os.environ.get('SEED_BASE'):
+            # an earlier commit of /repo can itself violate a property that was repaired since: only what the patch adds counts
+            def run0(p):
+                r0 = subprocess.run(['/venv/bin/python', os.path.join(VERIF, 'check.py'), p, '--root', wt, '--no-evidence'], capture_output=True, text=True, cwd=VERIF)
+                return p, reports(r0.stdout)
+            with ThreadPoolExecutor(8) as ex0:
+                base_reports = dict(ex0.map(run0, props))
         r = subprocess.run(['git', '-C', wt, 'apply', '--whitespace=nowarn', patch], capture_output=True, text=True)
         if r.returncode != 0:
             print('PATCH DOES NOT APPLY:', r.stderr.strip())
@@ -30,7 +44,10 @@ def main() -> int:
                     viol.append(lines[i + 1].strip()[:230])
                 if l.startswith('ANALYSIS-ERROR'):
                     viol.append(l[:230])
-            return p, r.returncode, viol
+            rc = r.returncode
+            if rc == 1 and base_reports.get(p) and not (reports(r.stdout) - base_reports[p]):
+                return p, 0, [f'(reports only what the base commit already reports without the patch: not counted)']
+            return p, rc, viol
 
         fired, broken = [], []
         with ThreadPoolExecutor(8) as ex:
